@@ -102,7 +102,23 @@ func (g *gateModel) step(now time.Time, rawMode rebalancing.Mode, rawConf float6
 		return ""
 	}
 	if !g.isAllowed(rawMode) {
-		return "" // rejected by the allowed gate: not part of the stability sequence
+		if got.Mode == rebalancing.ModeNone {
+			return "" // rejected by the allowed gate: not part of the stability sequence
+		}
+		// the selector substituted a permitted mode for the refused one: what it returned has a
+		// permitted mode and sufficient confidence, so it is a decision that passes both gates
+		// and the stability period applies to it like to any other (seeded C19.r9)
+		if !g.havePrev {
+			g.havePrev, g.prevMode, g.lastChange = true, got.Mode, now
+			return ""
+		}
+		if got.Mode != g.prevMode {
+			if g.monotone && now.Sub(g.lastChange) < g.period {
+				return "stability"
+			}
+			g.prevMode, g.lastChange = got.Mode, now
+		}
+		return ""
 	}
 	// passes both gates: the returned mode is the raw mode or the previously adopted one
 	if got.Mode != rawMode && !(g.havePrev && got.Mode == g.prevMode) {
@@ -232,6 +248,12 @@ func c19bRun(c *ev.Ctx) {
 			}
 			if r.Chance(1, 20) {
 				f.DeleteRatio = math.NaN()
+			}
+			if r.Chance(1, 3) {
+				// the band in which the rules pick incremental rebalancing, with a burst: the
+				// decisions an allowed-modes list without "incremental" has to refuse
+				f.FileSize = []uint64{500<<20 + 1, 700 << 20, 1<<30 - 1}[r.Intn(3)]
+				f.BurstDetected = r.Chance(3, 4)
 			}
 			wt := rebalancing.WorkloadType(r.Intn(7))
 			raw := pure.Select(f, wt)
